@@ -15,7 +15,8 @@ RULE = ("bounded-exhaustive enumeration of (value expression, operation, placeme
         "snapshot() run once with create approved through Example.run_inline and then re-executed with inline-snapshot "
         "inactive; a case is non-trivial when the file really changed, the call gained exactly one argument and the "
         "re-execution evaluated the written expression (test function ran to its end); distinct = distinct "
-        "(expr, op, placement, layout) descriptors")
+        "(expr, op, placement, layout) descriptors"
+        "; plus real multi-file sessions (every assignment of {plain, hasrepr, external, both, good} to 2-3 files) and empty containers under keys")
 ASSUMPTIONS = [
     "classes/enums mentioned by a repr are defined in the module prologue (property: evaluated in the module's own namespace)",
     "HasRepr import is present in in-process cases (run_inline does not add imports; import insertion is checked through the real plugin in C03/C19)",
